@@ -23,6 +23,21 @@ func memo(g func() string) func() string {
 	}
 }
 
+// memoK: a memoised continuation is translated once, under the alias state (buf.go) of its first
+// use; reaching it again under a different alias state is refused.
+func (f *fnCtx) memoK(g func() string) func() string {
+	done, s, key := false, "", ""
+	return func() string {
+		if !done {
+			key = f.staleKey()
+			s, done = g(), true
+		} else if key != f.staleKey() {
+			die("%s: a control-flow join is reached with different alias states of []byte variables (%q / %q)", f.d.Name, key, f.staleKey())
+		}
+		return s
+	}
+}
+
 func (f *fnCtx) letOrBind(name string, v val, body string) string {
 	if v.pure {
 		return "let " + name + " := " + v.s + " in\n" + body
@@ -36,7 +51,7 @@ func (f *fnCtx) stmts(list []ast.Stmt, sc scope, k kont) string {
 	}
 	st, rest := list[0], list[1:]
 	next := func(sc scope) string { return f.stmts(rest, sc, k) }
-	after := kont{normal: memo(func() string { return next(sc) }), brk: k.brk, cont: k.cont}
+	after := kont{normal: f.memoK(func() string { return next(sc) }), brk: k.brk, cont: k.cont}
 	switch s := st.(type) {
 	case *ast.EmptyStmt:
 		return next(sc)
@@ -51,11 +66,28 @@ func (f *fnCtx) stmts(list []ast.Stmt, sc scope, k kont) string {
 				}
 			}
 		}
+		if c, ok := s.X.(*ast.CallExpr); ok {
+			if t, ok := f.bufCallStmt(c, sc, next); ok {
+				return t
+			}
+		}
+		if c, ok := s.X.(*ast.CallExpr); ok {
+			if id, ok := c.Fun.(*ast.Ident); ok {
+				if fo, ok := f.p.info.Uses[id].(*types.Func); ok {
+					f.refuse(s, "call statement of %s, which is not a translated function with a *[]byte parameter (refused, or no directive before this one)", fo.Name())
+				}
+			}
+		}
 		f.refuse(s, "expression statement")
 	case *ast.AssignStmt:
 		return f.assign(s, sc, next)
 	case *ast.IncDecStmt:
 		id, ok := s.X.(*ast.Ident)
+		if ok {
+			if t, handled := f.incDecUint(s, id); handled { // uints.go: ++/-- on uint16/32/64 wraps
+				return t + next(sc)
+			}
+		}
 		if !ok || !f.isInt(s.X) {
 			f.refuse(s, "++/-- on something that is not an int variable")
 		}
@@ -76,7 +108,9 @@ func (f *fnCtx) stmts(list []ast.Stmt, sc scope, k kont) string {
 			return f.stmts([]ast.Stmt{s.Init, &inner}, sc, after)
 		}
 		c := f.expr(s.Cond)
+		saved := f.saveStale()
 		thenT := f.stmts(s.Body.List, sc, after)
+		f.restoreStale(saved)
 		var elseT string
 		switch e := s.Else.(type) {
 		case nil:
@@ -125,6 +159,12 @@ func (f *fnCtx) ifThenElse(c val, thenT, elseT string) string {
 }
 
 func (f *fnCtx) returnStmt(s *ast.ReturnStmt) string {
+	if f.noReturn > 0 {
+		f.refuse(s, "return inside a nested loop")
+	}
+	if len(f.outs) > 0 {
+		return f.returnOuts(s)
+	}
 	if len(s.Results) == 0 {
 		if len(f.named) != len(f.res) {
 			f.refuse(s, "bare return without named results")
@@ -140,7 +180,7 @@ func (f *fnCtx) returnStmt(s *ast.ReturnStmt) string {
 	}
 	vs := make([]val, len(s.Results))
 	for i, r := range s.Results {
-		vs[i] = f.expr(r)
+		vs[i] = f.resultExpr(r, f.res[i]) // errors.go: nil / fmt.Errorf for an error result, else f.expr
 		if vs[i].t.String() != f.res[i].String() {
 			f.refuse(r, "returned value has representation %s, expected %s", vs[i].t, f.res[i])
 		}
@@ -182,6 +222,9 @@ func (f *fnCtx) assign(s *ast.AssignStmt, sc scope, next func(scope) string) str
 		o     types.Object // nil for _
 		isNew bool
 	}
+	if t, ok := f.bufAssign(s, sc, next); ok {
+		return t
+	}
 	tg := make([]target, len(s.Lhs))
 	for i, l := range s.Lhs {
 		id, ok := l.(*ast.Ident)
@@ -203,7 +246,7 @@ func (f *fnCtx) assign(s *ast.AssignStmt, sc scope, next func(scope) string) str
 				continue
 			}
 			if t.isNew {
-				f.ctypeOf(t.o.Type(), s.Lhs[i])
+				f.ctypeOfObj(t.o, s.Lhs[i])
 				f.local[t.o] = true
 				sc2 = sc2.with(t.o)
 			}
@@ -245,7 +288,7 @@ func (f *fnCtx) assign(s *ast.AssignStmt, sc scope, next func(scope) string) str
 				sg = f.out.funcs[f.p.name+"."+fo.Name()]
 			}
 		}
-		if sg == nil || !sg.recvless || len(sg.res) != len(s.Lhs) {
+		if sg == nil || !sg.recvless || len(sg.res) != len(s.Lhs) || len(sg.outIdx) > 0 || sg.file != f.file {
 			f.refuse(s, "multi-value assignment from something that is not a translated function")
 		}
 		vs := make([]val, len(call.Args))
@@ -272,7 +315,10 @@ func (f *fnCtx) assign(s *ast.AssignStmt, sc scope, next func(scope) string) str
 	for i, r := range s.Rhs {
 		vs[i] = f.expr(r) // evaluated before any target is rebound
 		if tg[i].o != nil {
-			want := f.ctypeOf(tg[i].o.Type(), s.Lhs[i])
+			want := f.ctypeOfObj(tg[i].o, s.Lhs[i])
+			if want.k == tBuf || vs[i].t.k == tBuf {
+				f.refuse(r, "assignment of a []byte buffer outside the accepted forms (make, x = x[:k], b = *buf): it would alias")
+			}
 			if want.String() != vs[i].t.String() {
 				f.refuse(r, "assigned value has representation %s, expected %s", vs[i].t, want)
 			}
@@ -308,6 +354,17 @@ func (f *fnCtx) assign(s *ast.AssignStmt, sc scope, next func(scope) string) str
 
 func (f *fnCtx) decl(s *ast.DeclStmt, sc scope, next func(scope) string) string {
 	gd, ok := s.Decl.(*ast.GenDecl)
+	if ok && gd.Tok == token.CONST {
+		// a constant local to the function: every use is resolved to its value by go/types
+		for _, sp := range gd.Specs {
+			for _, id := range sp.(*ast.ValueSpec).Names {
+				if _, isConst := f.p.info.Defs[id].(*types.Const); !isConst && id.Name != "_" {
+					f.refuse(s, "unsupported const declaration")
+				}
+			}
+		}
+		return next(sc)
+	}
 	if !ok || gd.Tok != token.VAR {
 		f.refuse(s, "unsupported declaration")
 	}
@@ -325,7 +382,10 @@ func (f *fnCtx) decl(s *ast.DeclStmt, sc scope, next func(scope) string) string 
 		vals := make([]val, len(vs.Names))
 		for i, id := range vs.Names {
 			o := f.p.info.Defs[id]
-			ct := f.ctypeOf(o.Type(), id)
+			ct := f.ctypeOfObj(o, id)
+			if ct.k == tBuf && len(vs.Values) != 0 {
+				f.refuse(id, "var declaration of a []byte buffer with an initialiser (use :=)")
+			}
 			if len(vs.Values) == 0 {
 				vals[i] = val{s: ct.zero(), pure: true, t: ct}
 			} else {
@@ -420,8 +480,12 @@ func (f *fnCtx) switchStmt(s *ast.SwitchStmt, sc scope, after kont) string {
 			if tag != nil {
 				v = f.eqVals(*tag, v, e)
 			}
-			if v.t.k != tBool || !v.pure {
-				f.refuse(e, "unsupported case expression (must be pure)")
+			if v.t.k != tBool {
+				f.refuse(e, "unsupported case expression (must be boolean)")
+			}
+			if !v.pure && (len(cc.List) > 1 || tag != nil) {
+				// a case expression that can panic is evaluated only when the earlier ones are false
+				f.refuse(e, "case expression that can panic in a case list / tagged switch")
 			}
 			if i == 0 {
 				c = v
@@ -429,7 +493,9 @@ func (f *fnCtx) switchStmt(s *ast.SwitchStmt, sc scope, after kont) string {
 				c = val{s: paren(c.s) + " || " + paren(v.s), pure: true, t: v.t}
 			}
 		}
+		saved := f.saveStale()
 		arms = append(arms, arm{c, f.stmts(cc.Body, sc, k)})
+		f.restoreStale(saved)
 	}
 	var body string
 	if def != nil {
@@ -438,7 +504,12 @@ func (f *fnCtx) switchStmt(s *ast.SwitchStmt, sc scope, after kont) string {
 		body = k.normal()
 	}
 	for i := len(arms) - 1; i >= 0; i-- {
-		body = "if " + arms[i].c.s + " then\n" + indent(arms[i].body, 2) + "\nelse " + body
+		if arms[i].c.pure {
+			body = "if " + arms[i].c.s + " then\n" + indent(arms[i].body, 2) + "\nelse " + body
+		} else {
+			// Go evaluates the case expressions top to bottom and stops at the first true one
+			body = f.ifThenElse(arms[i].c, arms[i].body, body)
+		}
 	}
 	return pre(body)
 }
@@ -506,7 +577,7 @@ func (f *fnCtx) countingFuel(s *ast.ForStmt) (string, bool) {
 	stable := true
 	ast.Inspect(cond.Y, func(n ast.Node) bool {
 		if x, ok := n.(*ast.Ident); ok {
-			if v, ok := f.p.info.Uses[x].(*types.Var); ok && (f.assigned(s.Body, v) || v == iv) {
+			if v, ok := f.p.info.Uses[x].(*types.Var); ok && (f.writes(s.Body, v) || v == iv) {
 				stable = false
 			}
 		}
@@ -535,7 +606,9 @@ func (f *fnCtx) countingFuel(s *ast.ForStmt) (string, bool) {
 
 func (f *fnCtx) enterLoop(at ast.Node) (name string, num int) {
 	if f.inLoop > 0 {
-		f.refuse(at, "nested loop")
+		if _, isFor := at.(*ast.ForStmt); !isFor {
+			f.refuse(at, "nested range loop")
+		}
 	}
 	f.nloop++
 	return fmt.Sprintf("%s_loop%d", f.gen, f.nloop), f.nloop
@@ -543,19 +616,26 @@ func (f *fnCtx) enterLoop(at ast.Node) (name string, num int) {
 
 // outside runs a continuation that lies outside the loop being translated.
 func (f *fnCtx) outside(g func() string) func() string {
-	return memo(func() string {
-		old := f.inLoop
-		f.inLoop = 0
-		defer func() { f.inLoop = old }()
+	// g is a memoised continuation (memoK): it is translated once, at its first use; later uses
+	// only re-check the alias state
+	return func() string {
+		old, oldNR := f.inLoop, f.noReturn
+		f.inLoop, f.noReturn = 0, 0
+		defer func() { f.inLoop, f.noReturn = old, oldNR }()
 		return g()
-	})
+	}
 }
 
 func (f *fnCtx) forStmt(s *ast.ForStmt, sc scope, after kont) string {
 	f.needImpure(s)
+	if f.inLoop > 0 {
+		return f.nestedFor(s, sc, after)
+	}
 	hname, num := f.enterLoop(s)
 	rest := f.outside(after.normal)
+	entry := ""
 	run := func(sc1 scope) string {
+		entry = f.staleKey()
 		fuel, ok := "", false
 		if s.Init != nil && s.Cond != nil && s.Post != nil {
 			fuel, ok = f.countingFuel(s)
@@ -566,16 +646,24 @@ func (f *fnCtx) forStmt(s *ast.ForStmt, sc scope, after kont) string {
 				f.refuse(s, "loop #%d has no syntactic bound: give a fuel expression in the directive", num)
 			}
 		}
-		iter := memo(func() string {
+		iter0 := memo(func() string {
 			call := strings.TrimSpace(hname + " fuel'1 " + f.actuals(sc1))
 			if s.Post == nil {
 				return call
 			}
 			return f.stmts([]ast.Stmt{s.Post}, sc1, kont{normal: func() string { return call }})
 		})
+		iter := func() string {
+			if f.staleKey() != entry {
+				f.refuse(s, "the alias state of []byte variables at the end of the loop body differs from the one at loop entry")
+			}
+			return iter0()
+		}
+		saved := f.saveStale()
 		f.inLoop++
 		body := f.stmts(s.Body.List, sc1, kont{normal: iter, brk: rest, cont: iter})
 		f.inLoop--
+		f.restoreStale(saved)
 		step := "match fuel'0 with\n| O => OutOfFuel\n| S fuel'1 =>\n" + indent(body, 2) + "\nend"
 		var text string
 		if s.Cond == nil {
@@ -627,7 +715,7 @@ func (f *fnCtx) rangeStmt(s *ast.RangeStmt, sc scope, after kont) string {
 			return
 		}
 		o := f.p.info.Defs[id]
-		f.ctypeOf(o.Type(), id)
+		f.ctypeOfObj(o, id)
 		f.local[o] = true
 		sc1 = sc1.with(o)
 		lets += "let " + f.nameOf(o) + " := " + from + " in\n"
@@ -635,24 +723,37 @@ func (f *fnCtx) rangeStmt(s *ast.RangeStmt, sc scope, after kont) string {
 	bindVar(s.Key, "i'0")
 	xs := f.fresh()
 	var helper, call string
+	entry := f.staleKey()
+	saved := f.saveStale()
+	backEdge := func() {
+		if f.staleKey() != entry {
+			f.refuse(s, "the alias state of []byte variables at the end of the loop body differs from the one at loop entry")
+		}
+	}
 	if isString {
 		bindVar(s.Value, "r'0")
 		iter := func() string {
+			backEdge()
 			return strings.TrimSpace(hname + " fuel'1 (skipn w'0 s'0) (i'0 + Z.of_nat w'0) " + f.actuals(sc))
 		}
 		f.inLoop++
 		body := f.stmts(s.Body.List, sc1, kont{normal: iter, brk: rest, cont: iter})
 		f.inLoop--
+		f.restoreStale(saved)
 		helper = fmt.Sprintf("Fixpoint %s (fuel'0 : nat) (s'0 : bytes) (i'0 : Z)%s {struct fuel'0} : %s :=\n"+
 			"  match s'0 with\n  | [] =>\n%s\n  | _ :: _ =>\n    match fuel'0 with\n    | O => OutOfFuel\n    | S fuel'1 =>\n      let '(r'0, w'0) := decode_rune s'0 in\n%s\n    end\n  end.\n",
 			hname, f.binders(sc), f.resType(), indent(rest(), 4), indent(lets+body, 6))
 		call = strings.TrimSpace(hname + " (List.length " + xs + ") " + xs + " 0 " + f.actuals(sc))
 	} else {
 		bindVar(s.Value, "x'0")
-		iter := func() string { return strings.TrimSpace(hname + " l'1 (i'0 + 1) " + f.actuals(sc)) }
+		iter := func() string {
+			backEdge()
+			return strings.TrimSpace(hname + " l'1 (i'0 + 1) " + f.actuals(sc))
+		}
 		f.inLoop++
 		body := f.stmts(s.Body.List, sc1, kont{normal: iter, brk: rest, cont: iter})
 		f.inLoop--
+		f.restoreStale(saved)
 		helper = fmt.Sprintf("Fixpoint %s (l'0 : %s) (i'0 : Z)%s {struct l'0} : %s :=\n"+
 			"  match l'0 with\n  | [] =>\n%s\n  | x'0 :: l'1 =>\n%s\n  end.\n",
 			hname, x.t, f.binders(sc), f.resType(), indent(rest(), 4), indent(lets+body, 4))
